@@ -15,7 +15,7 @@ Decided clauses (structural necessary conditions, DESIGN.md section 4 / C01):
 from __future__ import annotations
 
 from .. import terms as T
-from ..facts import (C, G, V, arg, bind_call, calls, events, returns, spec, yields,
+from ..facts import (C, G, V, arg, bind_call, ite_arms, calls, events, returns, spec, yields,
                      strip_conv, unobj)
 from ..symeval import mk_elem
 from . import common
@@ -111,8 +111,7 @@ def sort_before_ordered(ctx):
         p = b.get('pixels')
         # the frame/dict arm of the pixels argument must be a sort by exactly [bin1_id, bin2_id]
         arm = None
-        if p is not None and p[0] == 'ite':
-            cond, a, bb = p[1], p[2], p[3]
+        for cond, a in ite_arms(p):
             if _covers_frame_and_dict(cond):
                 arm = a
         if arm is None:
